@@ -1099,6 +1099,89 @@ fn pairs_part(run: &mut Run) {
     }
 }
 
+/// Parsers that differ in the extension set only, used one after the other on one thread: what a parser
+/// with set A did must not reach a parser with set B (all 18 x 17 ordered pairs of: everything, everything but
+/// one extension, nothing, one extension only).
+const EXTENSION_INPUTS: &[&str] = &[
+    "@eggs{1-2} @milk{1/2-3/4%l} #tins{2-3}",
+    "~{5} ~rest{} ~{10%min} ~nap",
+    "Knead @dough{}.\n\nBake @&(~1)dough{} and @&(1)dough{}",
+    "@olive oil|oil{} #frying pan|pan{}",
+    ">> [mode]: steps\n@a{}\n\n@a{} and @&a{}\n>> [duplicate]: ref\n@b{} @b{}",
+    "Add 5 g of salt and bake at 180 C for 10 minutes",
+    "@water{1 l} #pot{2 big} ~{5 min}",
+    "@-salt{} @?pepper{} @+salt{} @@pesto{} @&salt{}",
+    "@x{=2%kg} @y{1/0} ~{x%min} ~{5%kg}",
+    ">> servings: 2|4\n>> time: 1h\n@a{1%kg}(note) @&a{2%g}(other)",
+];
+
+fn sibling_extension_sets() -> Vec<cooklang::Extensions> {
+    use cooklang::Extensions as E;
+    let singles = [E::COMPONENT_MODIFIERS, E::COMPONENT_ALIAS, E::ADVANCED_UNITS, E::MODES, E::INLINE_QUANTITIES, E::RANGE_VALUES, E::TIMER_REQUIRES_TIME, E::INTERMEDIATE_PREPARATIONS];
+    let mut v = vec![E::all(), E::empty()];
+    for s in singles {
+        v.push(E::all() - s);
+        v.push(s);
+    }
+    v.dedup();
+    v
+}
+
+fn extension_images(p: &CooklangParser) -> Vec<String> {
+    EXTENSION_INPUTS.iter().map(|src| guard(|| full_image(p, src)).unwrap_or_else(|e| format!("panic:{e}"))).collect()
+}
+
+fn check_extension_pair(c: &(u8, u8)) -> Verdict {
+    let sets = sibling_extension_sets();
+    let (a, b) = (sets[c.0 as usize % sets.len()], sets[c.1 as usize % sets.len()]);
+    let (pa, pb) = (CooklangParser::new(a, BUNDLED.clone()), CooklangParser::new(b, BUNDLED.clone()));
+    let (reference, after) = std::thread::scope(|s| {
+        let fresh = s.spawn(|| extension_images(&pb)).join().unwrap();
+        let after = s
+            .spawn(|| {
+                let _ = extension_images(&pa);
+                extension_images(&pb)
+            })
+            .join()
+            .unwrap();
+        (fresh, after)
+    });
+    for (i, (r, x)) in reference.iter().zip(&after).enumerate() {
+        vensure!(
+            r == x,
+            "c18.depends-on-history",
+            "a parser with {b:?} gives another result for {:?} on a thread where a parser with {a:?} parsed before than on a fresh thread\n {}",
+            EXTENSION_INPUTS[i],
+            first_diff(r, x)
+        );
+    }
+    Ok(())
+}
+
+fn extension_pairs_part(run: &mut Run) {
+    let n = sibling_extension_sets().len();
+    let mut st = Stats::default();
+    let mut fail = None;
+    'outer: for a in 0..n {
+        for b in 0..n {
+            if a == b {
+                continue;
+            }
+            st.eval();
+            st.nontrivial(&(a, b));
+            if let Err(v) = check_extension_pair(&(a as u8, b as u8)) {
+                fail = Some((v, json!([a, b])));
+                break 'outer;
+            }
+        }
+    }
+    st.sample(|| json!(EXTENSION_INPUTS[0]));
+    run.add_part("extension-pairs", &format!("all {} ordered pairs of {n} extension sets (everything, everything but one, nothing, one only): a thread parses 10 inputs that use every extension's syntax with a parser of the first set, then with a parser of the second; the second images must equal those of a thread that only used the second parser; every pair is non-trivial", n * (n - 1)), st, true);
+    if let Some((v, case)) = fail {
+        run.fail("extension-pairs", v, case);
+    }
+}
+
 fn processes_part(run: &mut Run, n: usize) {
     let mut st = Stats::default();
     let exe = std::env::current_exe().expect("current exe");
@@ -1140,6 +1223,7 @@ pub fn run(tier: Tier) -> i32 {
         "sibling-converters" => check_siblings(&case_from(j)?, &mut Stats::default()),
         "observers" => check_observed(&case_from(j)?, None),
         "pairs" => check_pair(&case_from(j)?),
+        "extension-pairs" => check_extension_pair(&case_from(j)?),
         "buffer-reuse" => check_buffer_reuse(&case_from(j)?, &mut Stats::default()),
         _ => {
             let c: InputCase = case_from(j)?;
@@ -1219,6 +1303,9 @@ pub fn run(tier: Tier) -> i32 {
         pairs_part(&mut run);
     }
     if !run.failed() {
+        extension_pairs_part(&mut run);
+    }
+    if !run.failed() {
         observers_part(&mut run, tier.pick(600, 20000) as usize);
     }
     if !run.failed() {
@@ -1257,6 +1344,7 @@ pub fn replay(part: &str, j: &serde_json::Value) -> Verdict {
         "sibling-converters" => check_siblings(&case_from(j)?, &mut Stats::default()),
         "observers" => check_observed(&case_from(j)?, None),
         "pairs" => check_pair(&case_from(j)?),
+        "extension-pairs" => check_extension_pair(&case_from(j)?),
         "buffer-reuse" => check_buffer_reuse(&case_from(j)?, &mut Stats::default()),
         "ffi-histories" => {
             let src = j.get("source").and_then(|s| s.as_str()).unwrap_or("").to_string();
